@@ -5,6 +5,7 @@ for seed in ${@:-1}; do
   for id in C01 C02 C03 C04 C05 C06 C07 C08 C09 C10 C11 C12 C13 C14 C15 C16 C17 C18 C19 C20; do
     out=$(VERIF_SEED=$seed PYTHONHASHSEED=0 ./check $id --tier quick 2>&1); rc=$?
     echo "seed=$seed $id rc=$rc $(echo "$out" | grep -v KNOWN-FINDING | tail -1 | cut -c1-160)"
-    [ $rc -ne 0 ] && echo "$out" | grep -v KNOWN-FINDING | tail -5 | cut -c1-600
+    if [ $rc -ne 0 ]; then bad=1; echo "$out" | grep -v KNOWN-FINDING | tail -5 | cut -c1-600; fi
   done
 done
+exit ${bad:-0}
